@@ -526,7 +526,7 @@ func checkCase(c sqlCase) (o pbt.Outcome) {
 	known := ""
 	unclassified := false
 	for _, i := range culprits {
-		id := classifyEdit(target, c.Edits, i)
+		id := classifyEdit(target, c.Edits, culprits, i)
 		d := describeEdit(target, c.Edits[i])
 		if id == "" {
 			unclassified = true
